@@ -514,8 +514,14 @@ class Charge:
         id_list : Sequence of int
             List of particle ids: ``[0, 12, 321]``
         """
+        had_particles: bool = not self._frame.empty
+
         if id_list:
             # TODO: Check carefully if 'inplace' is needed. This could break lot of things.
             self._frame.query(f"index not in {id_list}", inplace=True)
         else:
             self._frame = self.EMPTY_FRAME.copy()
+
+        if had_particles and self._frame.empty:
+            # All the charges were in the DataFrame: nothing is left in the array
+            self._array = np.zeros_like(self._array)
